@@ -163,6 +163,7 @@ func projRenderWS(tc *projCase) *projRender {
 var projDirs = [][]string{
 	{"main.lua", "a.lua", "b.lua", "c.lua", "t.lua"},
 	{"main.lua", "lib/a.lua", "lib/deep/b.lua", "other/c.lua", "tools/t.lua"},
+	{"main.lua", "client/util/a.lua", "server/util/b.lua", "server/net/c.lua", "util/t.lua"}, // directories of equal base name
 }
 
 type projExt struct {
@@ -207,8 +208,12 @@ func projBuildCase(id int, pj *projJob, project bool, kinds string) *proto.Case 
 		q.step = len(pc.Steps) - 1
 		pj.qs = append(pj.qs, q)
 	}
-	for _, f := range projFiles {
-		pc.Steps = append(pc.Steps, openStep(pj.path[f], pj.r.text[f]))
+	// (when only the outline and the workspace symbols are asked, every second workspace is queried without opening
+	// its files: the index must come from the workspace scan alone)
+	if !(kinds == "outline wsym" && hash64(string(pj.raw), scSeed+21)%2 == 0) {
+		for _, f := range projFiles {
+			pc.Steps = append(pc.Steps, openStep(pj.path[f], pj.r.text[f]))
+		}
 	}
 	for i := range pj.r.toks {
 		t := &pj.r.toks[i]
@@ -591,7 +596,7 @@ func projJudgeAll(c *Ctx, p *pool.Pool, raws []json.RawMessage, kinds string) (i
 		if json.Unmarshal(raw, &tc) != nil {
 			continue
 		}
-		layout := int(hash64(string(raw), scSeed) % 2)
+		layout := int(hash64(string(raw), scSeed) % 3)
 		pj := &projJob{tc: &tc, r: projRenderWS(&tc), layout: layout, path: map[string]string{}, raw: raw}
 		for k, f := range projFiles {
 			pj.path[f] = projDirs[layout][k]
@@ -780,7 +785,7 @@ func projHistoryRuns(c *Ctx, p *pool.Pool, maxReq int, given []json.RawMessage) 
 		}
 		hv := hash64(string(raw), scSeed+77)
 		h := &hist{raw: raw, tc: &tc, r: projRenderWS(&tc), path: map[string]string{}, edit: projFiles[int(hv%uint64(len(projFiles)))]}
-		layout := int(hv>>8) % 2
+		layout := int(hv>>8) % 3
 		for k, f := range projFiles {
 			h.path[f] = projDirs[layout][k]
 		}
